@@ -3,7 +3,7 @@ C12 driver: parses the case lines that harness/c12/c12.c executes against the re
 (`model` mode), or parses an implementation trace into events and runs the specification oracle (`judge` mode).
 
 Case lines:   script u<k> =<text> <op>;<op>...   |  conn  |  send u<k> <data>  |  close u<k>  |  cycle  |  run
-ops:          kick,u<k> | drop,u<k> | ecmd,u<k>,<text> | gc | it | itn
+ops:          kick,u<k> | drop,u<k> | ecmd,u<k>,<text> | gc | it | itn | err
 Texts in traces are `=` followed by [a-z0-9] literally and %xx for every other byte.
 -/
 import NV.Common.Proto
@@ -67,6 +67,8 @@ def render : Ev → String
   | .it u r => s!"it u{u} {b01 r}"
   | .endc n m l => l.foldl (fun acc (i, u, f) => acc ++ s!" {i}:u{u}:{f}") s!"end {n} max={m}"
   | .crash w => s!"crash {w}"
+  | .err u => s!"throw u{u}"
+  | .abort n => s!"abort {n}"
   | .other l => l
 
 def parse01 (s : String) : Option Bool := if s == "1" then some true else if s == "0" then some false else none
@@ -96,6 +98,8 @@ def parseEv (line : String) : Ev :=
     | ["it", u, r] => do some (.it (← parseUid u) (← parse01 r))
     | "end" :: n :: m :: l =>
       if m.startsWith "max=" then do some (.endc (← n.toNat?) (← (m.drop 4).toString.toNat?) (← parseLayout l)) else none
+    | ["throw", u] => do some (.err (← parseUid u))
+    | ["abort", n] => do some (.abort (← n.toNat?))
     | "crash" :: w => some (.crash (" ".intercalate w))
     | _ => none
   r.getD (.other line)
@@ -108,6 +112,7 @@ def parseOp (s : String) : Option Op :=
   | ["gc"] => some .gc
   | ["it"] => some .it
   | ["itn"] => some .it      -- input_to with I_NOECHO: the echo flag does not touch scheduling
+  | ["err"] => some .err
   | _ => none
 
 structure Parsed where
